@@ -17,11 +17,17 @@ DIR = "/var/tmp/devfacts"
 
 
 class FastCtx(Ctx):
-    def __init__(self, f):
+    def __init__(self, f, path=None):
         Ctx.__init__(self, "quick")
         self._f = f
+        self._f_path = path
+        self._d = None
 
     def facts(self, config="default", crate="shred", kind="rlib"):
+        if crate == "shred_derive":
+            if self._d is None:
+                self._d = load(self._f_path[:-5] + ".derive.json", label="default")
+            return self._d
         return self._f
 
     def all_facts(self, config):
@@ -29,11 +35,12 @@ class FastCtx(Ctx):
 
 
 def run_variant(name):
-    f = load(os.path.join(DIR, name + ".json"), label="default")
+    fpath = os.path.join(DIR, name + ".json")
+    f = load(fpath, label="default")
     out = {}
     for prop in PROPS:
         mod = importlib.import_module("shredlint.rules.%s" % prop.lower())
-        ctx = FastCtx(f)
+        ctx = FastCtx(f, fpath)
         rep = Report(prop)
         try:
             mod.run(ctx, rep)
@@ -66,7 +73,7 @@ def main(argv):
     if args and args[0] == "-v":
         verbose = True
         args = args[1:]
-    names = sorted(fn[:-5] for fn in os.listdir(DIR) if fn.endswith(".json"))
+    names = sorted(fn[:-5] for fn in os.listdir(DIR) if fn.endswith(".json") and not fn.endswith(".derive.json"))
     if args:
         names = [n for n in names if any(n.startswith(a) for a in args)]
     if "BASE" not in names:
